@@ -3,6 +3,8 @@
 package harness
 
 import (
+	"github.com/enbility/ship-go/model"
+
 	"fmt"
 	"time"
 
@@ -120,6 +122,16 @@ func setupC10(x *Ctx) {
 					}
 					x.Ev("cancel-sees", name, op.Target, st)
 					n.hub.CancelPairingWithSKI(r.spell(tski))
+					// the pairing may have completed between that look and the hub's own (the
+					// caller was descheduled): a completed, still trusted connection at return
+					// means the cancel found nothing pending and left it alone
+					if x.Feat(FeatSpawnLast) {
+						if c := n.hub.VerifConnections()[tski]; c != nil {
+							if cst, _ := c.ShipHandshakeState(); cst == model.SmeStateComplete && n.hub.ServiceForSKI(tski).Trusted() {
+								x.Ev("cancel-sees", name, op.Target, 7)
+							}
+						}
+					}
 				case "disconnect":
 					n.hub.DisconnectSKI(r.spell(tski), "user")
 				case "autoaccept-on":
